@@ -7,6 +7,8 @@ import PyProb.Model.Bitarray
 import PyProb.Model.Sizing
 import PyProb.Model.Bloom
 import PyProb.Model.Expanding
+import PyProb.Model.CMS
+import PyProb.Model.Cuckoo
 
 namespace PyProb.Drv
 open PyProb
@@ -64,12 +66,19 @@ structure Hashing where
   strat : Strat
   probe : List Nat      -- `self.hashes("test")`
 
+inductive CmObj
+  | plain (c : CMS)
+  | hh (h : HH)
+  | st (s : ST)
+
 inductive Obj
   | bitarray (b : Bitarray)
   | bloom (b : Bloom) (h : Hashing)
   | cbf (c : CBF) (h : Hashing)
   | expanding (e : Expanding) (h : Hashing)
   | rotating (r : Rotating) (h : Hashing)
+  | cm (c : CmObj) (h : Hashing)
+  | cuckoo (c : Cuckoo) (seed : Int)
 
 structure St where
   objs : Std.HashMap Nat Obj := {}
